@@ -845,3 +845,237 @@ Proof.
     rewrite <- app_assoc. rewrite D. unfold charge, ret. replace (g <? len (0 :: c)) with false by lia.
     unfold dec_link. rewrite WC. reflexivity.
 Qed.
+
+(* ------------------------------------------------------------------ *)
+(* bounds relating the measures                                        *)
+
+Lemma fold_max_le {A} (f : A -> N) l n B :
+  n <= B -> (forall x, In x l -> f x <= B) -> fold_right (fun x acc => N.max (f x) acc) n l <= B.
+Proof.
+  intros Hn H. induction l as [|y l IH]; cbn [fold_right]; [exact Hn|].
+  pose proof (H y (or_introl eq_refl)).
+  assert (fold_right (fun x acc => N.max (f x) acc) n l <= B) by (apply IH; intros x I; apply H; right; exact I).
+  lia.
+Qed.
+
+Lemma gas_list_in l x : In x l -> gas_cost x <= gas_list gas_cost l.
+Proof.
+  unfold gas_list. induction l as [|y l IH]; intros I; [contradiction|]. cbn [fold_right].
+  destruct I as [->|I]; [lia|]. specialize (IH I). lia.
+Qed.
+
+Lemma gas_entries_in m kv : In kv m ->
+  len (fst kv) <= gas_entries gas_cost m /\ gas_cost (snd kv) <= gas_entries gas_cost m.
+Proof.
+  unfold gas_entries. induction m as [|y m IH]; intros I; [contradiction|]. cbn [fold_right].
+  destruct I as [->|I]; [lia|]. specialize (IH I). lia.
+Qed.
+
+Lemma max_size_le_gas v : max_size v <= gas_cost v.
+Proof.
+  induction v as [| | | | | l IH | m IH |] using ipld_ind'; cbn [max_size gas_cost]; try lia.
+  - change (fold_right (fun x acc => 4 + gas_cost x + acc) 0 l) with (gas_list gas_cost l).
+    apply fold_max_le; [apply len_le_gas_list|].
+    rewrite Forall_forall in IH. intros x I. pose proof (IH x I). pose proof (gas_list_in l x I). lia.
+  - change (fold_right (fun kv acc => len (fst kv) + 8 + gas_cost (snd kv) + acc) 0 m) with (gas_entries gas_cost m).
+    apply (fold_max_le (fun kv => N.max (len (fst kv)) (max_size (snd kv)))); [apply len_le_gas_entries|].
+    rewrite Forall_forall in IH. intros x I. pose proof (IH x I) as H. destruct (gas_entries_in m x I) as [A B].
+    apply N.max_lub; [exact A | eapply N.le_trans; [exact H | exact B]].
+Qed.
+
+Lemma wf_max_size v : wf_ipld v = true -> max_size v <= 2 ^ 64.
+Proof.
+  induction v as [| | | s | s | l IH | m IH | c] using ipld_ind'; cbn [max_size wf_ipld]; intros WF; try lia.
+  - apply bytes_ok_len in WF. lia.
+  - apply bytes_ok_len in WF. lia.
+  - apply andb_true_iff in WF. destruct WF as [WL WF]. rewrite forallb_forall in WF. rewrite Forall_forall in IH.
+    apply fold_max_le; [unfold len; lia | auto].
+  - rewrite !andb_true_iff in WF. destruct WF as [[WL WF] _]. rewrite forallb_forall in WF. rewrite Forall_forall in IH.
+    apply (fold_max_le (fun kv => N.max (len (fst kv)) (max_size (snd kv)))); [unfold len; lia|].
+    intros x I. specialize (WF x I). apply andb_true_iff in WF. destruct WF as [WK WV].
+    apply bytes_ok_len in WK. specialize (IH x I WV).
+    apply N.max_lub; [apply N.lt_le_incl; exact WK | exact IH].
+  - apply andb_true_iff in WF. destruct WF as [WB _]. apply bytes_ok_len in WB.
+    unfold len in *. cbn [length] in WB. lia.
+Qed.
+
+(* ------------------------------------------------------------------ *)
+(* theorems about the codec as configured in go-ipld-prime             *)
+
+(* the decoder's allocation budget suffices for (the encoding of) v *)
+Definition in_budget (v : ipld) : bool := gas_cost v <=? go_gas.
+
+Theorem cbor_roundtrip_rest v rest :
+  wf_ipld v = true -> in_budget v = true ->
+  cbor_decode (cbor_encode v ++ rest) = Some (canon v, rest).
+Proof.
+  intros WF B. unfold in_budget in B. unfold cbor_decode, cbor_decode_r.
+  pose proof (max_size_le_gas v) as MS. unfold go_gas in *.
+  rewrite (dec_enc go_limits) with (v := v); try assumption.
+  - reflexivity.
+  - unfold lim_ok, go_limits. cbn [max_len]. lia.
+  - unfold fits, go_limits. cbn [max_len max_str]. split; lia.
+  - rewrite app_length. lia.
+  - lia.
+Qed.
+
+Theorem cbor_roundtrip v :
+  wf_ipld v = true -> in_budget v = true ->
+  cbor_decode_all (cbor_encode v) = Some (canon v).
+Proof.
+  intros WF B. unfold cbor_decode_all.
+  rewrite <- (app_nil_r (cbor_encode v)). rewrite cbor_roundtrip_rest by assumption. reflexivity.
+Qed.
+
+(* beyond the budget the implementation's decoder is NOT total on encoder output; the model says so too
+   for the simplest shape (one string longer than the budget) *)
+Theorem cbor_budget_exceeded s :
+  bytes_ok s = true -> go_gas < len s -> len s <= 33554432 ->
+  cbor_decode_all (cbor_encode (IString s)) = None.
+Proof.
+  intros WF B L. apply bytes_ok_len in WF.
+  destruct (dec_payload_head go_limits 3 s WF) as (ai & p & E & Hai & D);
+    [unfold go_limits; cbn [max_len]; lia | unfold go_limits; cbn [max_str]; lia |].
+  unfold cbor_decode_all, cbor_decode, cbor_decode_r. cbn [cbor_encode]. rewrite E. cbn [app length dec_item].
+  rewrite <- (app_nil_r s) at 2. rewrite dec_byte_major by lia. major_tests. rewrite D.
+  unfold charge. replace (go_gas <? len s) with true by lia. reflexivity.
+Qed.
+
+Definition big_limits : limits := {| max_len := 2 ^ 64; max_str := 2 ^ 64 |}.
+
+(* canonical form does not change the bytes *)
+Theorem cbor_encode_canon v : cbor_encode (canon v) = cbor_encode v.
+Proof.
+  induction v as [| | | | | l IH | m IH |] using ipld_ind'; try reflexivity.
+  - cbn [canon cbor_encode]. unfold len. rewrite map_length, map_map. f_equal. f_equal.
+    apply map_ext_Forall. exact IH.
+  - rewrite canon_map_eq, !cbor_encode_map_eq. unfold len.
+    rewrite sort_map_length, map_length. f_equal. f_equal. f_equal.
+    rewrite sort_map_idem, sort_map_map, map_map.
+    apply map_ext_Forall.
+    assert (F : Forall (fun kv => cbor_encode (canon (snd kv)) = cbor_encode (snd kv)) (sort_map m)).
+    { rewrite Forall_forall in *. intros x I. apply IH. eapply Permutation_in; [apply sort_map_perm | exact I]. }
+    eapply Forall_impl; [|exact F]. intros kv H. unfold on_snd. cbn [fst snd]. rewrite H. reflexivity.
+Qed.
+
+(* insertion order of a map does not influence the bytes *)
+Theorem cbor_encode_perm m m' :
+  NoDup (map fst m) -> Permutation m m' -> cbor_encode (IMap m) = cbor_encode (IMap m').
+Proof.
+  intros ND P. rewrite !cbor_encode_map_eq. unfold len. rewrite (Permutation_length P).
+  rewrite (sort_map_permutation m m' ND P). reflexivity.
+Qed.
+
+(* equal bytes, equal canonical values (tamper detection reduces to this) *)
+Theorem cbor_encode_inj a b :
+  wf_ipld a = true -> wf_ipld b = true -> cbor_encode a = cbor_encode b -> canon a = canon b.
+Proof.
+  intros WA WB E.
+  assert (LO : lim_ok big_limits) by (unfold lim_ok, big_limits; cbn [max_len]; lia).
+  assert (FA : fits big_limits a) by (pose proof (wf_max_size a WA); unfold fits, big_limits; cbn [max_len max_str]; lia).
+  assert (FB : fits big_limits b) by (pose proof (wf_max_size b WB); unfold fits, big_limits; cbn [max_len max_str]; lia).
+  pose proof (dec_enc big_limits LO a WA FA (length (cbor_encode a)) (gas_cost a + gas_cost b) []
+                      (Nat.le_refl _) ltac:(lia)) as DA.
+  pose proof (dec_enc big_limits LO b WB FB (length (cbor_encode a)) (gas_cost a + gas_cost b) []
+                      ltac:(rewrite E; apply Nat.le_refl) ltac:(lia)) as DB.
+  rewrite E in DA. rewrite DA in DB. inversion DB. reflexivity.
+Qed.
+
+(* prefix-freeness: a value is followed by arbitrary bytes unambiguously *)
+Theorem cbor_encode_prefix_free a b ra rb :
+  wf_ipld a = true -> wf_ipld b = true ->
+  cbor_encode a ++ ra = cbor_encode b ++ rb -> canon a = canon b /\ ra = rb.
+Proof.
+  intros WA WB E.
+  assert (LO : lim_ok big_limits) by (unfold lim_ok, big_limits; cbn [max_len]; lia).
+  assert (FA : fits big_limits a) by (pose proof (wf_max_size a WA); unfold fits, big_limits; cbn [max_len max_str]; lia).
+  assert (FB : fits big_limits b) by (pose proof (wf_max_size b WB); unfold fits, big_limits; cbn [max_len max_str]; lia).
+  pose proof (dec_enc big_limits LO a WA FA (length (cbor_encode a) + length (cbor_encode b)) (gas_cost a + gas_cost b) ra
+                      ltac:(lia) ltac:(lia)) as DA.
+  pose proof (dec_enc big_limits LO b WB FB (length (cbor_encode a) + length (cbor_encode b)) (gas_cost a + gas_cost b) rb
+                      ltac:(lia) ltac:(lia)) as DB.
+  rewrite E in DA. rewrite DA in DB. inversion DB. auto.
+Qed.
+
+(* what makes signatures re-verifiable after transport: the decoded value re-encodes to the same bytes *)
+Theorem cbor_reencode v :
+  wf_ipld v = true -> in_budget v = true ->
+  exists v', cbor_decode_all (cbor_encode v) = Some v' /\ cbor_encode v' = cbor_encode v.
+Proof.
+  intros WF B. exists (canon v). split; [apply cbor_roundtrip; assumption | apply cbor_encode_canon].
+Qed.
+
+(* the model is a total function: every input is accepted with a value, rejected, or (floats) outside the
+   modelled domain; there is no diverging or panicking case *)
+Theorem cbor_decode_total b :
+  (exists v r, cbor_decode_r b = DOk (v, r)) \/ cbor_decode_r b = DErr \/ cbor_decode_r b = DUnsup.
+Proof. destruct (cbor_decode_r b) as [[v r]| |]; eauto. Qed.
+
+Theorem cbor_decode_all_total b : {v | cbor_decode_all b = Some v} + {cbor_decode_all b = None}.
+Proof. destruct (cbor_decode_all b) as [v|]; [left; exists v; reflexivity | right; reflexivity]. Qed.
+
+(* ------------------------------------------------------------------ *)
+(* non-vacuity and documented corner cases                             *)
+
+Definition ex_cid : bstr := mk_cidv1 113 18 (repeat 7 32).
+
+Definition ex_value : ipld :=
+  IMap [ (bs "with", IString (bs "did:key:z6Mk"));
+         (bs "a", IInt (-1));
+         (bs "nb", IMap [ (bs "size", IInt 18446744073709551615);
+                          (bs "link", ILink ex_cid);
+                          (bs "", INull) ]);
+         (bs "bb", IList [IInt (-9223372036854775808); IBytes [0; 255; 16]; IBool true; IList []; IInt 65536]);
+         (bs "ab", IBool false) ].
+
+Example ex_wf : wf_ipld ex_value = true /\ in_budget ex_value = true.
+Proof. vm_compute. split; reflexivity. Qed.
+
+Example ex_bytes :
+  cbor_encode ex_value =
+  hx "a5" ++ hx "6161" ++ hx "20"
+  ++ hx "626162" ++ hx "f4"
+  ++ hx "626262" ++ hx "85" ++ hx "3b7fffffffffffffff" ++ hx "4300ff10" ++ hx "f5" ++ hx "80" ++ hx "1a00010000"
+  ++ hx "626e62" ++ hx "a3" ++ hx "60f6"
+       ++ hx "646c696e6b" ++ hx "d82a" ++ hx "582500" ++ ex_cid
+       ++ hx "6473697a65" ++ hx "1bffffffffffffffff"
+  ++ hx "6477697468" ++ hx "6c" ++ bs "did:key:z6Mk".
+Proof. vm_compute. reflexivity. Qed.
+
+Example ex_roundtrip : cbor_decode_all (cbor_encode ex_value) = Some (canon ex_value).
+Proof. vm_compute. reflexivity. Qed.
+
+Example ex_canon_differs : canon ex_value <> ex_value.
+Proof. intros E. apply ipld_eqb_eq in E. vm_compute in E. discriminate. Qed.
+
+Example ex_perm :
+  cbor_encode (IMap (rev [(bs "bb", IInt 1); (bs "a", IInt 2); (bs "ab", IInt 3)]))
+  = cbor_encode (IMap [(bs "bb", IInt 1); (bs "a", IInt 2); (bs "ab", IInt 3)]).
+Proof. vm_compute. reflexivity. Qed.
+
+(* the decoder is more liberal than the encoder: it is not injective on bytes *)
+Example dec_nonminimal_head : cbor_decode_all (hx "1805") = Some (IInt 5) /\ cbor_decode_all (hx "05") = Some (IInt 5).
+Proof. vm_compute. split; reflexivity. Qed.
+Example dec_unsorted_map_accepted :
+  cbor_decode_all (hx "a2" ++ hx "626262" ++ hx "01" ++ hx "6161" ++ hx "02") = Some (IMap [(bs "bb", IInt 1); (bs "a", IInt 2)]).
+Proof. vm_compute. reflexivity. Qed.
+Example dec_duplicate_key_rejected :
+  cbor_decode_all (hx "a2" ++ hx "6161" ++ hx "01" ++ hx "6161" ++ hx "02") = None.
+Proof. vm_compute. reflexivity. Qed.
+Example dec_indefinite_accepted :
+  cbor_decode_all (hx "9f01ff") = Some (IList [IInt 1])
+  /\ cbor_decode_all (hx "7f61616162ff") = Some (IString (bs "ab")).
+Proof. vm_compute. repeat split; reflexivity. Qed.
+Example dec_tag_ignored_on_non_bytes : cbor_decode_all (hx "d82a05") = Some (IInt 5) /\ cbor_decode_all (hx "c1c105") = None.
+Proof. vm_compute. split; reflexivity. Qed.
+Example dec_other_tag_on_bytes_rejected : cbor_decode_all (hx "c14100") = None.
+Proof. vm_compute. reflexivity. Qed.
+Example dec_undefined_is_null : cbor_decode_all (hx "f7") = Some INull.
+Proof. vm_compute. reflexivity. Qed.
+Example dec_negint_wraps : cbor_decode_all (hx "3bffffffffffffffff") = Some (IInt 0)
+  /\ cbor_decode_all (hx "3b8000000000000000") = None /\ cbor_decode_all (hx "3b7fffffffffffffff") = Some (IInt (-9223372036854775808)).
+Proof. vm_compute. repeat split; reflexivity. Qed.
+Example dec_trailing_rejected : cbor_decode_all (hx "0101") = None /\ cbor_decode (hx "0101") = Some (IInt 1, [1]).
+Proof. vm_compute. split; reflexivity. Qed.
+Example dec_float_outside_model : cbor_decode_r (hx "f93c00") = DUnsup.
+Proof. vm_compute. reflexivity. Qed.
